@@ -1072,19 +1072,120 @@ used while the multi-provider feature is off, the policies are enforced as DENY 
 Dry-run CUSTOM policies are not emitted (after the fix recorded in notes/C08.md). Only gRPC
 providers are modelled (they exist for HTTP and TCP chains). -/
 
+/-- Where an `ext_authz` filter sends its check request (`generateGRPCConfig` / `generateHTTPConfig`):
+    kind of service, upstream cluster, authority / host of the server URI, failure mode, status on
+    error, path prefix (HTTP kind). -/
+structure ExtTarget where
+  http : Bool := false
+  cluster : Str := []
+  hostname : Str := []
+  failOpen : Bool := false
+  status : Option Nat := none
+  pathPrefix : Str := []
+deriving Repr, DecidableEq, Inhabited
+
+/-- The network `ext_authz` filter has no status-on-error (and no path prefix: it is gRPC only). -/
+def ExtTarget.onChain (tcpShape : Bool) (t : ExtTarget) : ExtTarget :=
+  if tcpShape then { t with status := none } else t
+
+/-- One `extensionProviders` entry of the mesh config (envoyExtAuthzGrpc / envoyExtAuthzHttp). -/
+structure ProviderSpec where
+  name : Str
+  http : Bool := false
+  service : Str
+  port : Nat
+  failOpen : Bool := false
+  statusOnError : Str := []
+  pathPrefix : Str := []
+deriving Repr, DecidableEq, Inhabited
+
+/-- `model.LookupCluster` over the service index (hostname, namespace): `<ns>/<host>` must exist; a bare
+    host must exist in exactly one namespace.  Yields (hostname, cluster name). -/
+def lookupCluster (registry : List (Str × Str)) (service : Str) (port : Nat) : Option (Str × Str) :=
+  if service.isEmpty then none
+  else
+    let cluster (h : Str) : Str := "outbound|".toList ++ natToStr port ++ "||".toList ++ h
+    match splitOn '/' service with
+    | [ns, h] => if registry.contains (h, ns) then some (h, cluster h) else none
+    | _ =>
+      match (registry.filter fun e => e.1 == service) with
+      | [_] => some (service, cluster service)
+      | _ => none
+
+/-- The codes of `envoy.type.v3.StatusCode`. -/
+def envoyStatusCodes : List Nat :=
+  [0, 100, 200, 201, 202, 203, 204, 205, 206, 207, 208, 226, 300, 301, 302, 303, 304, 305, 307, 308,
+   400, 401, 402, 403, 404, 405, 406, 407, 408, 409, 410, 411, 412, 413, 414, 415, 416, 417, 421, 422,
+   423, 424, 426, 428, 429, 431, 500, 501, 502, 503, 504, 505, 506, 507, 508, 510, 511]
+
+/-- `parseStatusOnError`: `some none` = not set, `some (some c)` = code, `none` = error.  (`ParseInt`
+    reads an optional sign.) -/
+def parseStatusOnError (s : Str) : Option (Option Nat) :=
+  if s.isEmpty then some none
+  else
+    let (neg, digits) : Bool × Str := match s with
+      | '-' :: r => (true, r)
+      | '+' :: r => (false, r)
+      | _ => (false, s)
+    if digits.isEmpty || !digits.all isDigit || digits.length > 9 then none
+    else
+      let v := digitsVal digits 0
+      if neg && v != 0 then none
+      -- (code 0, the enum's `Empty` placeholder, is refused: Envoy rejects it - fix 2aba4fa in /repo)
+      else if envoyStatusCodes.contains v && v != 0 then some (some v) else none
+
+/-- `validateProviderName`: lowercase letters, digits and '-', at most 63, no '-' at either end. -/
+def providerNameOK (n : Str) : Bool :=
+  !n.isEmpty && n.length ≤ 63 &&
+  n.all (fun c => ('a' ≤ c && c ≤ 'z') || isDigit c || c == '-') &&
+  n.head? != some '-' && n.getLast? != some '-'
+
+/-- `buildExtAuthzGRPC` / `buildExtAuthzHTTP` (with the agent-side validation that precedes them): the
+    target, or `none` when the entry has an error (port, service lookup, status, path prefix). -/
+def resolveProvider (registry : List (Str × Str)) (p : ProviderSpec) : Option ExtTarget :=
+  if p.port < 1 || p.port > 65535 then none
+  else match lookupCluster registry p.service p.port, parseStatusOnError p.statusOnError with
+    | some (h, c), some st =>
+      if p.http && !p.pathPrefix.isEmpty && p.pathPrefix.head? != some '/' then none
+      else some { http := p.http, cluster := c, hostname := h, failOpen := p.failOpen, status := st,
+                  pathPrefix := if p.http then p.pathPrefix else [] }
+    | _, _ => none
+
+/-- `processExtensionProvider`: the usable providers with their targets.  An entry with an empty,
+    ill-formed or repeated name, or whose config has an error, makes the provider unusable (policies
+    naming it are enforced as DENY); of several entries with one name the last one counts - and carries
+    the duplicate error. -/
+def processProviders (registry : List (Str × Str)) (specs : List ProviderSpec) : List (Str × ExtTarget) :=
+  (specs.filterMap fun p =>
+    if !providerNameOK p.name || (specs.filter (·.name == p.name)).length > 1 then none
+    else (resolveProvider registry p).map fun t => (p.name, t))
+
 structure CustomOpts where
   providers : List Str    -- extension providers defined (and valid) in the mesh config
   multi : Bool            -- PILOT_ENABLE_MULTIPLE_CUSTOM_AUTHZ_PROVIDERS
   /-- the providers of type envoyExtAuthzHttp (they have no network ext_authz filter: a CUSTOM policy
       naming one is skipped on a TCP filter chain) -/
   httpProviders : List Str := []
+  /-- where each usable provider's authorizer lives -/
+  targets : List (Str × ExtTarget) := []
 deriving Repr, Inhabited
 
-/-- A generated filter: an RBAC filter or the ext_authz filter of a provider (only its enabling
-    metadata matcher is modelled: RBAC filter name and policy-id prefix). -/
+def CustomOpts.targetOf (c : CustomOpts) (pr : Str) : ExtTarget :=
+  match c.targets.find? (·.1 == pr) with
+  | some e => e.2
+  | none => {}
+
+/-- The CUSTOM options the mesh config defines. -/
+def CustomOpts.ofSpecs (registry : List (Str × Str)) (specs : List ProviderSpec) (multi : Bool) : CustomOpts :=
+  let ts := processProviders registry specs
+  { providers := ts.map (·.1), multi := multi,
+    httpProviders := (ts.filter (·.2.http)).map (·.1), targets := ts }
+
+/-- A generated filter: an RBAC filter or the ext_authz filter of a provider (its enabling metadata
+    matcher - RBAC filter name and policy-id prefix - and its target). -/
 inductive GFilter
   | rbac (f : Filter)
-  | extAuthz (name : Str) (rbacName : Str) (idPrefix : Str)
+  | extAuthz (name : Str) (rbacName : Str) (idPrefix : Str) (target : ExtTarget := {})
 deriving Repr, Inhabited
 
 def extAuthzMatchPrefix : Str := "istio-ext-authz".toList
@@ -1138,12 +1239,13 @@ def badCustomFilter (o : BuildOpts) (cps : List Policy) (prov : Str) : Filter :=
     shadow engine writes). -/
 def extAuthzShadowPrefix : Str := "istio_ext_authz_".toList
 
-def customFilters (o : BuildOpts) (cps : List Policy) (prov : Str) : List GFilter :=
+def customFilters (o : BuildOpts) (cps : List Policy) (prov : Str) (t : ExtTarget := {}) : List GFilter :=
   [ .rbac { name := rbacFilterName o.shapeTCP, rules := none,
             shadow := some ⟨.deny, providerRules o cps prov⟩,
             shadowPrefix := extAuthzShadowPrefix,
             statPrefix := if o.shapeTCP then "tcp.".toList else [] },
-    .extAuthz (extAuthzFilterName o.shapeTCP) (rbacFilterName o.shapeTCP) (extAuthzMatchPrefix ++ ['-'] ++ prov) ]
+    .extAuthz (extAuthzFilterName o.shapeTCP) (rbacFilterName o.shapeTCP) (extAuthzMatchPrefix ++ ['-'] ++ prov)
+      (t.onChain o.shapeTCP) ]
 
 /-- `builder.New` + `build[T]` for the CUSTOM builder on the selected policies. -/
 def compileCustomSelected (o : BuildOpts) (c : CustomOpts) (ps : List Policy) : List GFilter :=
@@ -1154,7 +1256,8 @@ def compileCustomSelected (o : BuildOpts) (c : CustomOpts) (ps : List Policy) : 
   else
     (sortDedup ((ps.filter (·.action == .custom)).map (·.provider))).flatMap fun pr =>
       if c.providers.contains pr then
-        (if o.shapeTCP && c.httpProviders.contains pr then [] else customFilters o (ps.filter (·.action == .custom)) pr)
+        (if o.shapeTCP && c.httpProviders.contains pr then []
+         else customFilters o (ps.filter (·.action == .custom)) pr (c.targetOf pr))
       else [.rbac (badCustomFilter o (ps.filter (·.action == .custom)) pr)]
 
 /-- The plugin's `BuildHTTP(class)`: nothing on sidecar outbound listeners, the same filters on sidecar
